@@ -13,7 +13,10 @@ Lemma gen_less_ts_ok a b : gen_less_ts a b = less_ts a b.
 Proof. reflexivity. Qed.
 
 Lemma gen_less_index_ok a b : gen_less_index a b = less_index a b.
-Proof. reflexivity. Qed.
+Proof.
+  unfold gen_less_index, less_index. cbv zeta.
+  destruct (u_index a =? u_index b); destruct (u_ts a =? u_ts b); reflexivity.
+Qed.
 
 (* Updates.UpTo (the script does not depend on how the loop body spells the test) *)
 Lemma gen_up_to_ok us t : gen_up_to us t = up_to t us.
@@ -177,8 +180,8 @@ Proof.
   { induction ns as [|n r IH]; intro acc; cbn [fold_left filter map].
     - rewrite app_nil_r. reflexivity.
     - rewrite IH. cbv beta zeta. unfold annotated at 2.
-      destruct (negb (n_ver n =? 0) || negb (n_lon n =? 0) || negb (n_lat n =? 0));
-        cbn [map]; rewrite <- ?app_assoc; reflexivity. }
+      destruct (n_ver n =? 0); destruct (n_lon n =? 0); destruct (n_lat n =? 0);
+        cbn [negb orb andb map]; rewrite <- ?app_assoc; reflexivity. }
   exact (H []).
 Qed.
 
@@ -192,8 +195,7 @@ Qed.
 
 (* second loop: the updates *)
 Definition lsat_body (t : Z) (ls : list point) (u : update) : lstep (list point) (option (list point)) :=
-  if t <? u_ts u then LNext ls
-  else if Z.of_nat (length ls) <=? u_index u then LNext ls
+  if (t <? u_ts u) || (Z.of_nat (length ls) <=? u_index u) then LNext ls
   else set_at ls (u_index u) (fun el => (u_lon u, snd el)) (LRet None) (fun ls1 =>
        set_at ls1 (u_index u) (fun el => (fst el, u_lat u)) (LRet None) (fun ls2 => LNext ls2)).
 
@@ -203,7 +205,7 @@ Lemma lsat_body_loop t : forall us ls,
 Proof.
   induction us as [|u r IH]; intro ls; [reflexivity|].
   rewrite loop_fold_cons. cbn [lsat_loop]. unfold lsat_body at 1.
-  destruct (t <? u_ts u); [apply IH|].
+  destruct (t <? u_ts u); [apply IH|]. cbn [orb].
   destruct (Z.of_nat (length ls) <=? u_index u) eqn:Ehi; [apply IH|].
   destruct (u_index u <? 0) eqn:Eneg.
   - unfold set_at at 1. rewrite Eneg. reflexivity.
